@@ -1,7 +1,7 @@
 #!/bin/sh
 # try_patch.sh <patch.diff> <property> [extra check args]: run a check against a scratch copy of /repo (HEAD) with the patch applied
 set -e
-P=$1; PROP=$2; shift 2
+P=$(readlink -f "$1"); PROP=$2; shift 2
 D=$(mktemp -d /tmp/jpv.mut.XXXXXX)
 git -C /repo archive HEAD | tar -x -C "$D"
 ( cd "$D" && git init -q . && git apply "$P" ) || { echo "PATCH DOES NOT APPLY"; rm -rf "$D"; exit 3; }
